@@ -20,6 +20,13 @@ one period before every read, so a period without any message closes the connect
 namespace CJ.Heartbeat
 open CJ.SctpConn
 
+/-- `validate` (heartbeatConfig.go): the payload the filter works with.  A payload that is not
+configured, or configured empty, is replaced by the default one (an empty payload would make every
+failed read of the stream — `n = 0` — look like a heartbeat). -/
+def validate (dflt : Bytes) : Option Bytes → Bytes
+  | none => dflt
+  | some hb => if hb = [] then dflt else hb
+
 /-- the messages that reach `recvCh`, in order, for a scripted stream below (`cap = maxMessageSize`
 is the size of the loop's buffer; a longer message is reported `short` by the stream: an error) -/
 def queued (hb : Bytes) (cap : Nat) : List Item → List Item
